@@ -79,6 +79,32 @@ def main():
     sql_async_seen = any(m["repo"] == "sql" and "returned while" in m["what"] for m in rep["mismatches"] or [])
     if SQL_ASYNC_AS_CODED and not sql_async_seen:
         machinery.append("the model says SQLRepository.Append is asynchronous (SQL_ASYNC_AS_CODED) but the gate did not observe it")
+    # ---- overlapping Appends to one asset of the repository that is guarded for concurrent use (RepositoryOverlap.tla)
+    A, K, R = (2, 2, 2) if tier == "quick" else (3, 2, 2)
+    ocfg = "CONSTANTS A = %d K = %d MaxReads = %d\nSPECIFICATION Spec\nCHECK_DEADLOCK FALSE\nINVARIANTS Visible NoLossNoDup Emit\n" % (A, K, R)
+    ro = vlib.run_tlc({"RepositoryOverlap.tla": None}, "RepositoryOverlap", ocfg, workers=4, timeout=2400, heap="6g")
+    states += ro.distinct
+    trans += ro.generated
+    if ro.violation:
+        machinery.append("spec/RepositoryOverlap.tla: %s violated in the model" % ro.violation)
+    scheds = [o for t, o in ro.prints if t == "SCHED"]
+    if len(scheds) < 50:
+        raise vlib.Machinery("RepositoryOverlap.tla emitted %d schedules" % len(scheds))
+    wd = vlib.scratch("verif-c10o-")
+    try:
+        path = os.path.join(wd, "sched.ndjson")
+        with open(path, "w") as f:
+            for sch in scheds:
+                f.write(json.dumps(sch) + "\n")
+        p = vlib.harness_cmd(["replay-overlap", path], timeout=1800)
+        if p.returncode != 0:
+            raise vlib.Machinery("replay-overlap failed (a hang here means an Append call did not take a snapshot it was handed): " + (p.stderr or p.stdout)[:800])
+        orep = json.loads(p.stdout)
+    finally:
+        shutil.rmtree(wd, ignore_errors=True)
+    for m in orep["mismatches"] or []:
+        V.violation({"repo": "memory", "op": "Append", "kind": "overlapping-appends"},
+                    "memory repository, overlapping Append calls on one asset: %s (an Append that has returned must stay visible)" % m, {"mismatch": m})
     for n in model_notes:
         print("MODEL: " + n)
     rc = V.finish()
@@ -91,6 +117,7 @@ def main():
         "rule": "every history of %d Append calls over names {a,b}, batches {<<>>,<<1>>,<<1,2>>,<<2>>,<<3,3>>,<<3,1>>}; after each "
                 "Append all reads (Get, GetSince x 3 bounds, LastDate for a, b and a never-appended name; Assets) on memory, "
                 "file-system and (for strictly increasing dates) SQL repositories; non-trivial = some non-empty batch" % depth,
+        "overlap_schedules": orep["schedules"], "overlap_reads": orep["reads"],
         "exhaustive": True, "model_notes": model_notes, "known_findings_hit": V.hit}, time.time() - t0, len(V.new),
         assumptions=["SQL through a conforming in-process driver (the repository ships no dialect); only histories with strictly "
                      "increasing dates per asset are replayed on SQL", "Assets() order and the listing of names that only ever got "
